@@ -11,7 +11,6 @@ NA = {
     'C14': 'quantified over schedules; the only object-level kernel (FIFO buffer) has 512/1024-byte constants and VecDeque byte loops beyond Kani\'s reach and outside Verus\'s subset',
     'C15': 'all-interleavings / fairness property of an Rc<RefCell> run queue with a raw waker vtable; with dyn Future inputs nothing is symbolic, and liveness is not decided by contracts',
     'C17': 'substitution lives inside the async lexer/parser restart protocol; the one synchronous helper\'s contract does not decide termination or eligibility',
-    'C18': 'interaction of an async byte reader, the lexer buffer and other readers of the same descriptor over all chunkings; needs cross-process ghost state',
     'C19': 'differential statement between the simulator and a real kernel; one side has no code to specify',
 }
 PENDING = 'contract units for this property are not built yet in this revision of /verif (planned in DESIGN.md section 4); not claimed until its check exists'
@@ -109,6 +108,10 @@ TECH['C10'] = 'contract-based deductive verification (Verus, Z3) of Env::errexit
 LEVEL_TEXT['C09'] = 'Kernel only. Unbounded deductive proof (Verus) on the real perform / RedirGuard code, against an assumed model of the descriptor table: a redirection saves the target in a close-on-exec descriptor >= 10, changes the target only, refuses targets the shell reserves, and leaves the table unchanged on every failure; the guard restores exactly the initial table (undo_redirs, Drop) for any number of redirections, or closes every backing copy (preserve_redirs). Each operator opens its file with the access mode and flags of XCU 2.7, noclobber never truncates or hands out an existing regular file, <& / >& only name suitable open descriptors, and every opener leaves nothing open on failure. The expansion of operands and the interpreter\'s use of the guard are assumed or not decided; level other because the claim is a kernel over a model of the OS side.'
 NOTE['C09'] = 'Kernel only. Trusted: Verus/Z3; the descriptor-table model of Close/Dup/Fcntl; assumed contracts for expansion and for writing the here-document body; await points dropped; loops over drain() checked in an equivalent form. Not covered: here-document content, callers of RedirGuard, move_fd_internal, VirtualSystem.'
 TECH['C09'] = 'contract-based deductive verification (Verus, Z3) of perform / replace_target / RedirGuard::{new, perform_redir, undo_redirs, preserve_redirs, drop} and the openers (open_normal, open_file, open_file_noclobber, copy_fd, here_doc::open_fd) against a ghost descriptor table'
+
+LEVEL_TEXT['C18'] = 'Kernel only. Unbounded deductive proof (Verus) on the real FdReader2::next_line against an assumed model of read(2): each read asks for one byte, the bytes consumed from the descriptor are exactly the returned line, ending at the first newline, on success and on error; nothing that follows the line is taken from the input. The lexer / read-eval-loop half of the property (a new line is requested only when needed, each command runs before the next is read) is async interpreter code and is not decided; level other because the claim is a kernel over a model of the OS side.'
+NOTE['C18'] = 'Kernel only (the line reader). Trusted: Verus/Z3; the synchronous model of Read; assumed contract of slice::from_mut; await points dropped; text conversion uninterpreted. Not covered: lexer buffer management, runner, Memory / Echo / prompt decorators, cross-process sharing of the descriptor.'
+TECH['C18'] = 'contract-based deductive verification (Verus, Z3) of FdReader2::next_line (loop invariant over the consumed byte stream of a model descriptor)'
 
 
 def main():
